@@ -282,7 +282,7 @@ func checkWritten(p *Pkg, info implInfo, v reflect.Value, raw []byte, rec *Recor
 		declared[canon] = true
 		fv, ok := headerField(v, name)
 		if !ok {
-			return "", "" // unmappable, counted by the caller
+			return "header-has-no-field", fmt.Sprintf("the documented header %s has no field in the response type %s: a handler cannot set it", name, v.Type())
 		}
 		set, vals := FieldValues(fv)
 		got := hdr.Values(name)
